@@ -678,7 +678,7 @@ func (m *Machine) typeOf(id string) string {
 // refusal issues one write that must be answered with an error and checks
 // that it leaves no trace.
 func (m *Machine) refusal(t *rapid.T) {
-	kind := rapid.SampledFrom([]string{"selfParent", "cycle", "cycle", "deleteRoot", "noNodeType", "nanNode", "nanEdge", "garbage"}).Draw(t, "refusalKind")
+	kind := rapid.SampledFrom([]string{"selfParent", "cycle", "cycle", "deleteRoot", "noNodeType", "nanNode", "nanEdge", "garbage", "helperIntoSubtree"}).Draw(t, "refusalKind")
 	now := func() time.Time { return time.Unix(0, m.tick()) }
 	newEdge := func(typ string) data.Points {
 		return data.Points{{Type: data.PointTypeTombstone, Value: 0, Time: now()}, {Type: data.PointTypeNodeType, Text: typ, Time: now()}}
@@ -769,6 +769,44 @@ func (m *Machine) refusal(t *rapid.T) {
 		m.Flags["nan"] = true
 		m.logf("REFUSAL NaN at %d of %d in %s points of %s %s", pos, len(pts), kind, id, parent)
 		m.write(t, id, parent, pts, false, nil)
+	case "helperIntoSubtree":
+		// the public helpers: a move or mirror of a node below itself or below one
+		// of its descendants must fail as a whole and leave the node where it was
+		var cands [][3]string // id, a live parent of id, target
+		for _, e := range m.nonRootEdges() {
+			if e.Tomb {
+				continue
+			}
+			for _, p := range m.placed() {
+				if p != e.Parent && (p == e.ID || m.G.Ancestors(p, true)[e.ID]) && m.G.Edge(p, e.ID) == nil {
+					cands = append(cands, [3]string{e.ID, e.Parent, p})
+				}
+			}
+		}
+		if len(cands) == 0 {
+			t.Skip("no node with a descendant")
+		}
+		c := rapid.SampledFrom(cands).Draw(t, "helperCycle")
+		move := rapid.Bool().Draw(t, "helperMove")
+		m.drainUp()
+		var err error
+		if move {
+			m.logf("REFUSAL client.MoveNode(%s, %s -> %s) below itself", c[0], c[1], c[2])
+			err = client.MoveNode(m.In.NC, c[0], c[1], c[2], "helper")
+		} else {
+			m.logf("REFUSAL client.MirrorNode(%s, %s) below itself", c[0], c[2])
+			err = client.MirrorNode(m.In.NC, c[0], c[2], "helper")
+		}
+		if err == nil {
+			t.Fatalf("client helper placed %s below itself (under %s) without an error\nhistory:\n%s", c[0], c[2], m.History())
+		}
+		if strings.Contains(err.Error(), "timeout") {
+			t.Skip("helper request timed out (1 s, hard-coded)")
+		}
+		if msgs := m.drainUp(); len(msgs) > 0 {
+			t.Fatalf("refused helper call (%v) still caused a rebroadcast on %s\nhistory:\n%s", err, msgs[0].Subject, m.History())
+		}
+		m.Flags["helperRefused"] = true
 	case "garbage":
 		subject := "p." + rapid.SampledFrom(m.placed()).Draw(t, "node")
 		payload := rapid.SliceOfN(rapid.Byte(), 1, 20).Draw(t, "payload")
